@@ -26,7 +26,10 @@ Pre == << [t |-> "arr", ty |-> "int", x |-> "A", shape |-> <<>>, rows |-> << <<I
           [t |-> "arr", ty |-> "complex", x |-> "Z", shape |-> <<>>, rows |-> << <<Cpx(1, 2), Cpx(0, 2)>> >>] >>
 Good == { G(<<F(1, 2)>>, <<Kw("k", I(1))>>, <<I(0)>>), Stmt("MeasureX", FALSE, <<>>, <<>>, <<I(1)>>, "none"),
           [t |-> "var", ty |-> "int", x |-> "m", e |-> I(2)],
-          For("int", "i", [t |-> "range", a |-> 0, b |-> 2, c |-> 0, hasc |-> FALSE], <<G(<<Var("i")>>, <<>>, <<Var("i")>>)>>) }
+          For("int", "i", [t |-> "range", a |-> 0, b |-> 2, c |-> 0, hasc |-> FALSE], <<G(<<Var("i")>>, <<>>, <<Var("i")>>)>>),
+          \* loops that contribute nothing (an empty range, with and without step): whatever follows is still checked
+          For("int", "i", [t |-> "range", a |-> 2, b |-> 2, c |-> 0, hasc |-> FALSE], <<G(<<Var("i")>>, <<>>, <<Var("i")>>)>>),
+          For("float", "x", [t |-> "range", a |-> 3, b |-> 1, c |-> 2, hasc |-> TRUE], <<G(<<Var("x")>>, <<>>, <<I(0)>>)>>) }
 Undefined == {
   G(<<Var("u")>>, <<>>, <<I(0)>>), G(<<Bin("*", I(2), Var("u"))>>, <<>>, <<I(0)>>), G(<<>>, <<Kw("k", Var("u"))>>, <<I(0)>>),
   G(<<>>, <<Kw("l", [t |-> "lst", xs |-> <<I(1), Var("u")>>])>>, <<I(0)>>), G(<<>>, <<>>, <<Var("u")>>), G(<<>>, <<>>, <<I(0), Var("u")>>),
